@@ -114,7 +114,7 @@ def kernel_rules(P, R):
     mk = measure_kernels(P)
     R.floor('C14.a', 'length kernels found through the public length methods', len(mk['length']), 1)
     R.floor('C14.a', 'area kernels found through the public area methods', len(mk['area']), 1)
-    R.floor('C14.a', 'public length/area sites that use a measure kernel', sum(len(v) for d in mk.values() for v in d.values()), 12)
+    R.floor('C14.a', 'public length/area sites that use a measure kernel', sum(len(v) for d in mk.values() for v in d.values()), 4)
     # C14.i sibling agreement: the boundary of a polygon is the multi-line of its rings, and its length is the polygon's length; all kinds
     # therefore measure a part with ONE length kernel (and one area kernel): two kernels that differ skip or count different parts
     for attr in ('length', 'area'):
